@@ -117,17 +117,17 @@ def callerAll : List String :=
 
 /-- what `TxRecord.Read` assigns from an encoding whose caller section carries exactly `keeps` -/
 def TxCarriedK (keeps : List String) (x : Rec) (e : Env) : Prop :=
-  (∀ nm ∈ txPlain, e.get nm = x nm) ∧
+  (∀ nm ∈ txPlain, e.lookup nm = some (x nm)) ∧
   (if (x "Mtid").toInt ≠ 0
-    then e.get "Mtid" = x "Mtid" ∧ e.get "Mdepth" = x "Mdepth" ∧ e.get "Mcaller" = x "Mcaller"
+    then e.lookup "Mtid" = some (x "Mtid") ∧ e.lookup "Mdepth" = some (x "Mdepth") ∧ e.lookup "Mcaller" = some (x "Mcaller")
     else e.lookup "Mtid" = none ∧ e.lookup "Mdepth" = none ∧ e.lookup "Mcaller" = none) ∧
   (∀ nm ∈ callerAll,
-     if (x "McallerPcode").toInt ≠ 0 ∧ nm ∈ keeps then e.get nm = x nm else e.lookup nm = none) ∧
+     if (x "McallerPcode").toInt ≠ 0 ∧ nm ∈ keeps then e.lookup nm = some (x nm) else e.lookup nm = none) ∧
   (e.lookup "Fields" = match (x "Fields").toMapN with
                        | some (kv :: kvs) => some (.m (some (kv :: kvs)))
                        | _ => none) ∧
-  e.get "ErrorLevel" =
-    (if (x "ErrorLevel").toInt = 0 ∧ (x "Error").toInt ≠ 0 then .i 20 else x "ErrorLevel")
+  e.lookup "ErrorLevel" =
+    some (if (x "ErrorLevel").toInt = 0 ∧ (x "Error").toInt ≠ 0 then .i 20 else x "ErrorLevel")
 
 /-- the caller-identity fields an encoding with caller flag `f` carries -/
 def callerKeeps (f : Nat) : List String :=
